@@ -22,11 +22,63 @@ pub struct FaultCtl {
     /// every transaction boundary and every call that reached the storage, with its result, as
     /// items of Corr.StorageCorr
     pub log: Arc<Mutex<TraceLog>>,
+    /// the handle this controller belongs to (tags the trace items)
+    pub hid: usize,
+    /// transactions begun through this handle
+    pub txn_seq: Arc<AtomicUsize>,
+    /// the order in which all_tasks listed the tasks, per transaction of this handle
+    pub orders: Arc<Mutex<Vec<(usize, Vec<usize>)>>>,
+    /// when set, transactions are admitted one at a time in a seeded order
+    pub gate: Option<Arc<Gate>>,
+}
+
+/// admits one transaction at a time; which waiting handle goes next is a function of the seed
+/// and of the number of transactions admitted so far
+pub struct Gate {
+    st: Mutex<GateState>,
+    cv: std::sync::Condvar,
+}
+struct GateState {
+    seed: u64,
+    admitted: u64,
+    busy: bool,
+    nh: usize,
+    finished: Vec<bool>,
+}
+impl Gate {
+    pub fn new(seed: u64, nh: usize) -> Gate {
+        Gate { st: Mutex::new(GateState { seed, admitted: 0, busy: false, nh, finished: vec![false; nh] }), cv: std::sync::Condvar::new() }
+    }
+    fn next(st: &GateState) -> Option<usize> {
+        // the first handle, in a rotation chosen by (seed, admitted), that has not finished
+        let mut r = Rng::new(st.seed ^ st.admitted.wrapping_mul(0x9E3779B97F4A7C15));
+        let start = r.below(st.nh);
+        (0..st.nh).map(|k| (start + k) % st.nh).find(|h| !st.finished[*h])
+    }
+    pub fn acquire(&self, h: usize) {
+        let mut st = self.st.lock().unwrap();
+        loop {
+            if !st.busy && Gate::next(&st) == Some(h) {
+                st.busy = true;
+                st.admitted += 1;
+                return;
+            }
+            st = self.cv.wait(st).unwrap();
+        }
+    }
+    pub fn release(&self) {
+        self.st.lock().unwrap().busy = false;
+        self.cv.notify_all();
+    }
+    pub fn finish(&self, h: usize) {
+        self.st.lock().unwrap().finished[h] = true;
+        self.cv.notify_all();
+    }
 }
 
 #[derive(Default)]
 pub struct TraceLog {
-    pub items: Vec<Value>,
+    pub items: Vec<(usize, Value)>,
     versions: Vec<Uuid>,
 }
 
@@ -47,16 +99,39 @@ impl TraceLog {
 
 impl FaultCtl {
     pub fn new() -> FaultCtl {
-        FaultCtl { calls: Arc::new(AtomicUsize::new(0)), fail_at: Arc::new(AtomicIsize::new(-1)), log: Arc::new(Mutex::new(TraceLog::default())) }
+        FaultCtl {
+            calls: Arc::new(AtomicUsize::new(0)),
+            fail_at: Arc::new(AtomicIsize::new(-1)),
+            log: Arc::new(Mutex::new(TraceLog::default())),
+            hid: 0,
+            txn_seq: Arc::new(AtomicUsize::new(0)),
+            orders: Arc::new(Mutex::new(vec![])),
+            gate: None,
+        }
+    }
+    /// the controller of another handle writing to the same trace
+    pub fn handle(&self, hid: usize) -> FaultCtl {
+        FaultCtl { hid, txn_seq: Arc::new(AtomicUsize::new(0)), orders: Arc::new(Mutex::new(vec![])), ..self.observer() }
     }
     /// a controller that never fails and writes to the same trace (for fresh handles)
     pub fn observer(&self) -> FaultCtl {
-        FaultCtl { calls: Arc::new(AtomicUsize::new(0)), fail_at: Arc::new(AtomicIsize::new(-1)), log: self.log.clone() }
+        FaultCtl {
+            calls: Arc::new(AtomicUsize::new(0)),
+            fail_at: Arc::new(AtomicIsize::new(-1)),
+            log: self.log.clone(),
+            hid: self.hid,
+            txn_seq: self.txn_seq.clone(),
+            orders: self.orders.clone(),
+            gate: self.gate.clone(),
+        }
     }
     pub fn push(&self, item: Value) {
-        self.log.lock().unwrap().items.push(item);
+        self.log.lock().unwrap().items.push((self.hid, item));
     }
     pub fn take_items(&self) -> Vec<Value> {
+        std::mem::take(&mut self.log.lock().unwrap().items).into_iter().map(|(_, v)| v).collect()
+    }
+    pub fn take_tagged(&self) -> Vec<(usize, Value)> {
         std::mem::take(&mut self.log.lock().unwrap().items)
     }
     fn call(&self, c: Value, r: Value) {
@@ -87,14 +162,26 @@ pub struct FaultStorage<S: Storage> {
 #[async_trait]
 impl<S: Storage> Storage for FaultStorage<S> {
     async fn txn<'a>(&'a mut self) -> Result<Box<dyn StorageTxn + Send + 'a>, taskchampion::Error> {
-        let t = self.inner.txn().await?;
+        if let Some(g) = &self.ctl.gate {
+            g.acquire(self.ctl.hid);
+        }
+        let t = match self.inner.txn().await {
+            Ok(t) => t,
+            Err(e) => {
+                if let Some(g) = &self.ctl.gate {
+                    g.release();
+                }
+                return Err(e);
+            }
+        };
+        self.ctl.txn_seq.fetch_add(1, Ordering::SeqCst);
         self.ctl.push(c0("SBegin"));
-        Ok(Box::new(FaultTxn { inner: t, ctl: self.ctl.clone(), committed: false }))
+        Ok(Box::new(FaultTxn { inner: Some(t), ctl: self.ctl.clone(), committed: false }))
     }
 }
 
 pub struct FaultTxn<'a> {
-    inner: Box<dyn StorageTxn + Send + 'a>,
+    inner: Option<Box<dyn StorageTxn + Send + 'a>>,
     ctl: FaultCtl,
     committed: bool,
 }
@@ -103,6 +190,11 @@ impl Drop for FaultTxn<'_> {
     fn drop(&mut self) {
         if !self.committed {
             self.ctl.push(c0("SAbandon"));
+        }
+        // roll back (or finish) before the next transaction is admitted
+        self.inner = None;
+        if let Some(g) = &self.ctl.gate {
+            g.release();
         }
     }
 }
@@ -146,55 +238,59 @@ impl StorageTxn for FaultTxn<'_> {
     async fn get_task(&mut self, uuid: Uuid) -> R<Option<TaskMap>> {
         self.ctl.tick()?;
         let c = ctor("CGetTask", vec![ux(uuid)]);
-        let r = self.inner.get_task(uuid).await;
+        let r = self.inner.as_mut().unwrap().get_task(uuid).await;
         self.ctl.call(c, res(&r, |t| ctor("ROptTask", vec![opt(t.as_ref().map(tm_lit))])));
         r
     }
     async fn get_pending_tasks(&mut self) -> R<Vec<(Uuid, TaskMap)>> {
         self.ctl.tick()?;
         let c = c0("CPendingTasks");
-        let r = self.inner.get_pending_tasks().await;
+        let r = self.inner.as_mut().unwrap().get_pending_tasks().await;
         self.ctl.call(c, res(&r, |v| tasks_lit(v)));
         r
     }
     async fn create_task(&mut self, uuid: Uuid) -> R<bool> {
         self.ctl.tick()?;
         let c = ctor("CCreateTask", vec![ux(uuid)]);
-        let r = self.inner.create_task(uuid).await;
+        let r = self.inner.as_mut().unwrap().create_task(uuid).await;
         self.ctl.call(c, res(&r, |r| ctor("RBool", vec![b(*r)])));
         r
     }
     async fn set_task(&mut self, uuid: Uuid, task: TaskMap) -> R<()> {
         self.ctl.tick()?;
         let c = ctor("CSetTask", vec![ux(uuid), tm_lit(&task)]);
-        let r = self.inner.set_task(uuid, task).await;
+        let r = self.inner.as_mut().unwrap().set_task(uuid, task).await;
         self.ctl.call(c, res(&r, |_| c0("RUnit")));
         r
     }
     async fn delete_task(&mut self, uuid: Uuid) -> R<bool> {
         self.ctl.tick()?;
         let c = ctor("CDeleteTask", vec![ux(uuid)]);
-        let r = self.inner.delete_task(uuid).await;
+        let r = self.inner.as_mut().unwrap().delete_task(uuid).await;
         self.ctl.call(c, res(&r, |r| ctor("RBool", vec![b(*r)])));
         r
     }
     async fn all_tasks(&mut self) -> R<Vec<(Uuid, TaskMap)>> {
         self.ctl.tick()?;
         let c = c0("CAllTasks");
-        let r = self.inner.all_tasks().await;
+        let r = self.inner.as_mut().unwrap().all_tasks().await;
+        if let Ok(v) = &r {
+            let n = self.ctl.txn_seq.load(Ordering::SeqCst);
+            self.ctl.orders.lock().unwrap().push((n, v.iter().map(|(u, _)| uuid_index(*u, 64).expect("uuid")).collect()));
+        }
         self.ctl.call(c, res(&r, |v| tasks_lit(v)));
         r
     }
     async fn all_task_uuids(&mut self) -> R<Vec<Uuid>> {
         self.ctl.tick()?;
         let c = c0("CAllUuids");
-        let r = self.inner.all_task_uuids().await;
+        let r = self.inner.as_mut().unwrap().all_task_uuids().await;
         self.ctl.call(c, res(&r, |v| { let mut x: Vec<usize> = v.iter().map(|u| uuid_index(*u, 64).expect("uuid")).collect(); x.sort(); ctor("RUuids", vec![list(x.into_iter().map(n_).collect())]) }));
         r
     }
     async fn base_version(&mut self) -> R<VersionId> {
         self.ctl.tick()?;
-        let r = self.inner.base_version().await;
+        let r = self.inner.as_mut().unwrap().base_version().await;
         let v = match &r {
             Ok(v) => { let k = self.ctl.log.lock().unwrap().version(*v); ctor("RNat", vec![nat(k)]) }
             Err(_) => c0("RErr"),
@@ -205,93 +301,100 @@ impl StorageTxn for FaultTxn<'_> {
     async fn set_base_version(&mut self, version: VersionId) -> R<()> {
         self.ctl.tick()?;
         let k = self.ctl.log.lock().unwrap().version(version);
-        let r = self.inner.set_base_version(version).await;
+        let r = self.inner.as_mut().unwrap().set_base_version(version).await;
         self.ctl.call(ctor("CSetBaseVersion", vec![nat(k)]), res(&r, |_| c0("RUnit")));
         r
     }
     async fn get_task_operations(&mut self, uuid: Uuid) -> R<Vec<Operation>> {
         self.ctl.tick()?;
         let c = ctor("CTaskOps", vec![ux(uuid)]);
-        let r = self.inner.get_task_operations(uuid).await;
+        let r = self.inner.as_mut().unwrap().get_task_operations(uuid).await;
         self.ctl.call(c, res(&r, |v| ops_lit(v)));
         r
     }
     async fn unsynced_operations(&mut self) -> R<Vec<Operation>> {
         self.ctl.tick()?;
         let c = c0("CUnsynced");
-        let r = self.inner.unsynced_operations().await;
+        let r = self.inner.as_mut().unwrap().unsynced_operations().await;
         self.ctl.call(c, res(&r, |v| ops_lit(v)));
         r
     }
     async fn num_unsynced_operations(&mut self) -> R<usize> {
         self.ctl.tick()?;
         let c = c0("CNumUnsynced");
-        let r = self.inner.num_unsynced_operations().await;
+        let r = self.inner.as_mut().unwrap().num_unsynced_operations().await;
         self.ctl.call(c, res(&r, |k| ctor("RNat", vec![nat(*k)])));
         r
     }
     async fn add_operation(&mut self, op: Operation) -> R<()> {
         self.ctl.tick()?;
         let c = ctor("CAddOp", vec![op_lit(&op)]);
-        let r = self.inner.add_operation(op).await;
+        let r = self.inner.as_mut().unwrap().add_operation(op).await;
         self.ctl.call(c, res(&r, |_| c0("RUnit")));
         r
     }
     async fn remove_operation(&mut self, op: Operation) -> R<()> {
         self.ctl.tick()?;
         let c = ctor("CRemoveOp", vec![op_lit(&op)]);
-        let r = self.inner.remove_operation(op).await;
+        let r = self.inner.as_mut().unwrap().remove_operation(op).await;
         self.ctl.call(c, res(&r, |_| c0("RUnit")));
         r
     }
     async fn sync_complete(&mut self) -> R<()> {
         self.ctl.tick()?;
         let c = c0("CSyncComplete");
-        let r = self.inner.sync_complete().await;
+        let r = self.inner.as_mut().unwrap().sync_complete().await;
         self.ctl.call(c, res(&r, |_| c0("RUnit")));
         r
     }
     async fn get_working_set(&mut self) -> R<Vec<Option<Uuid>>> {
         self.ctl.tick()?;
         let c = c0("CGetWs");
-        let r = self.inner.get_working_set().await;
+        let r = self.inner.as_mut().unwrap().get_working_set().await;
         self.ctl.call(c, res(&r, |v| ctor("RWs", vec![list(v.iter().map(|x| opt(x.map(ux))).collect())])));
         r
     }
     async fn add_to_working_set(&mut self, uuid: Uuid) -> R<usize> {
         self.ctl.tick()?;
         let c = ctor("CAddWs", vec![ux(uuid)]);
-        let r = self.inner.add_to_working_set(uuid).await;
+        let r = self.inner.as_mut().unwrap().add_to_working_set(uuid).await;
         self.ctl.call(c, res(&r, |k| ctor("RNat", vec![nat(*k)])));
         r
     }
     async fn set_working_set_item(&mut self, index: usize, uuid: Option<Uuid>) -> R<()> {
         self.ctl.tick()?;
         let c = ctor("CSetWs", vec![nat(index), opt(uuid.map(ux))]);
-        let r = self.inner.set_working_set_item(index, uuid).await;
+        let r = self.inner.as_mut().unwrap().set_working_set_item(index, uuid).await;
         self.ctl.call(c, res(&r, |_| c0("RUnit")));
         r
     }
     async fn clear_working_set(&mut self) -> R<()> {
         self.ctl.tick()?;
         let c = c0("CClearWs");
-        let r = self.inner.clear_working_set().await;
+        let r = self.inner.as_mut().unwrap().clear_working_set().await;
         self.ctl.call(c, res(&r, |_| c0("RUnit")));
         r
     }
     async fn is_empty(&mut self) -> R<bool> {
         self.ctl.tick()?;
         let c = c0("CIsEmpty");
-        let r = self.inner.is_empty().await;
+        let r = self.inner.as_mut().unwrap().is_empty().await;
         self.ctl.call(c, res(&r, |r| ctor("RBool", vec![b(*r)])));
         r
     }
     async fn commit(&mut self) -> R<()> {
         self.ctl.tick()?;
-        let r = self.inner.commit().await;
-        if r.is_ok() {
-            self.committed = true;
-            self.ctl.push(c0("SCommit"));
+        // the item is written before the lock is released, so that the trace order is the lock
+        // order; it is turned into an abandonment if the commit fails
+        let pos = {
+            let mut l = self.ctl.log.lock().unwrap();
+            l.items.push((self.ctl.hid, c0("SCommit")));
+            l.items.len() - 1
+        };
+        self.committed = true;
+        let r = self.inner.as_mut().unwrap().commit().await;
+        if r.is_err() {
+            self.ctl.log.lock().unwrap().items[pos].1 = c0("SAbandon");
         }
         r
     }
